@@ -171,6 +171,21 @@ func checkC13(c *Ctx) *report.Result {
 		}
 		r.Ob("L-own", n > 0, "stores to the timing cells examined over every run-phase entry", "", fmt.Sprintf("%d stores", n))
 		r.Instances["L-own"] += n
+		// per address: only an LCDC write may move the schedule; a write to the read-only LY register may
+		// at most touch the published line number (the step recomputes it), never the tick counter or the mode
+		for _, iv := range c.elementaryIntervals() {
+			if iv[0] <= 0xFF40 && iv[1] >= 0xFF40 {
+				continue
+			}
+			w := c.evalDecoder(true, iv[0], iv[1], nil, nil)
+			var hit []string
+			for _, p := range c.storedCellsOf(w, m.PPU) {
+				if tp[p] && !(p == ".ly" && iv[0] == 0xFF44 && iv[1] == 0xFF44) {
+					hit = append(hit, p)
+				}
+			}
+			r.Ob("L-own", len(hit) == 0, fmt.Sprintf("write %04X-%04X leaves the line/mode schedule alone", iv[0], iv[1]), hposOf(c, w), fmt.Sprintf("timing cells stored: %v (only a write to LCDC may restart the schedule)", hit))
+		}
 	}
 	return r
 }
@@ -308,6 +323,8 @@ func checkC14(c *Ctx) *report.Result {
 		r.Ob("Q-own", n > 0, "request calls examined over every run-phase entry", "", fmt.Sprintf("%d calls", n))
 		r.Instances["Q-own"] += n
 	}
+	r.Rule("Q-sched", "the schedule the request table is indexed by is the documented one (rules L-inv / L-switch of C13 re-stated): a state that is skipped requests nothing")
+	adopt(r, c.sibling("C13"), map[string]string{"L-inv": "Q-sched", "L-switch": "Q-sched", "L-own": "Q-sched"}, "a timing state that is never visited never raises its request")
 	return r
 }
 
@@ -389,11 +406,13 @@ func checkC17(c *Ctx) *report.Result {
 		viol := map[string]string{}
 		n := 0
 		lcdc := map[string]bool{}
-		for _, f := range m.lcdcWrite(true, false, nil).Callees {
-			lcdc[fnName(f)] = true
-		}
-		for _, f := range m.lcdcWrite(false, true, nil).Callees {
-			lcdc[fnName(f)] = true
+		// the routines an LCDC write runs, without the decoder itself (every register write runs under it)
+		for _, on := range []bool{true, false} {
+			for _, f := range m.lcdcWrite(on, !on, nil).Callees {
+				if !c.W.CutFns[f] && !c.W.CutFns[outerFn(f)] && recvTypeKey(f) != "oam.OAM" {
+					lcdc[fnName(f)] = true // not the open/close routines themselves: the question is who calls them
+				}
+			}
 		}
 		c.evalAllEntries(ai.Hooks{
 			Store: func(_ *ai.State, at ssa.Instruction, p *ai.Ptr, keys []ai.CellKey, _ ai.Value, _ bool) {
@@ -504,6 +523,147 @@ func checkC17(c *Ctx) *report.Result {
 			}
 		}
 		r.Ob("O-arm", len(arr) == 0 && ev.Post != nil, "corruption step with no arming flag set stores nothing into OAM", firstPos(c, corruptStep), fmt.Sprintf("array cells stored %v", arr))
+	}
+
+	// ---- O-consume: a corruption armed in a machine cycle is applied in that same cycle
+	r.Rule("O-consume", "arming flags do not survive a machine cycle: the CPU step ends with all of them clear (the corruption step runs after the row entry of that same cycle), and no other per-cycle step, host callback or API entry sets one - so a corruption can never be applied after the window it was armed in has closed")
+	{
+		exec := c.P.Func("gameboy/cpu", "(*CPU).ExecuteMachineCycle")
+		keepLocal := func(o *ai.Object) bool { return o.ID > c.W.NObjInit }
+		clear := func(st *ai.State) {
+			for _, p := range arm {
+				st.SetCell(oam, p, ai.NewConstBool(false))
+			}
+		}
+		n := 0
+		for i := range c.W.Entries {
+			e := &c.W.Entries[i]
+			if e.Kind == "table" || e.Kind == "decoder" || c.W.CutFns[e.Fn] || e.Fn == exec {
+				continue // row entries and the decoder run only inside the CPU step (S1 of C02), which is examined below
+			}
+			st := it.StateOn(c.W.Generic)
+			clear(st)
+			it.Hooks = ai.Hooks{UnknownCall: func(s *ai.State, at ssa.Instruction) *ai.State { return s.Rebase(c.W.Generic, keepLocal) }}
+			post := c.W.RunEntry(e, st)
+			it.Hooks = ai.Hooks{}
+			var left []string
+			for _, p := range arm {
+				if b, isc := boolConst(c.cellBool(post, oam, p)); post != nil && (!isc || b) {
+					left = append(left, p)
+				}
+			}
+			n++
+			r.Ob("O-consume", len(left) == 0, "entry "+e.Name+" leaves every arming flag clear", firstPos(c, e.Fn), fmt.Sprintf("flags that may be set afterwards: %v; a pending corruption is applied in a later cycle, when the LCD may be off or the PPU outside mode 2", left))
+		}
+		if exec == nil || n == 0 {
+			r.Fail("unresolved", "O-consume", "CPU step", "", "not found")
+		} else {
+			// (1) in the CPU step the corruption step is called after the row entry on every path to the return
+			var rowCall, corrCall ssa.Instruction
+			for _, b := range exec.Blocks {
+				for _, ins := range b.Instrs {
+					if call, ok := ins.(*ssa.Call); ok {
+						if call.Call.StaticCallee() == corruptStep {
+							corrCall = ins
+						} else if _, isFn := call.Call.Value.(*ssa.Function); !isFn && !call.Call.IsInvoke() {
+							if _, bi := call.Call.Value.(*ssa.Builtin); !bi {
+								rowCall = ins
+							}
+						}
+					}
+				}
+			}
+			after := false
+			if rowCall != nil && corrCall != nil {
+				rb, cb := rowCall.Block(), corrCall.Block()
+				idx := func(ins ssa.Instruction) int {
+					for i, x := range ins.Block().Instrs {
+						if x == ins {
+							return i
+						}
+					}
+					return -1
+				}
+				if rb == cb {
+					after = idx(corrCall) > idx(rowCall)
+				} else {
+					// every path from the row call to a return passes through the corruption call's block
+					seen := map[*ssa.BasicBlock]bool{}
+					escapes := false
+					var walk func(b *ssa.BasicBlock)
+					walk = func(b *ssa.BasicBlock) {
+						if seen[b] || b == cb {
+							return
+						}
+						seen[b] = true
+						if _, isRet := b.Instrs[len(b.Instrs)-1].(*ssa.Return); isRet {
+							escapes = true
+						}
+						for _, s := range b.Succs {
+							walk(s)
+						}
+					}
+					for _, s := range rb.Succs {
+						walk(s)
+					}
+					if len(rb.Succs) == 0 {
+						escapes = true
+					}
+					after = !escapes
+				}
+			}
+			wherec := ""
+			if corrCall != nil {
+				wherec = c.pos(corrCall)
+			}
+			r.Ob("O-consume", after, "the CPU step applies pending corruptions after the row entry of the same machine cycle, on every path", wherec, "the corruption step must run after the row entry and before the step returns; otherwise a corruption armed in this cycle is applied in a later one, when the LCD may be off or the PPU outside mode 2")
+			// (2) the corruption step clears every flag, from every valuation with doubleWrite -> write
+			for v := 0; v < 8; v++ {
+				val := map[string]bool{}
+				for i, p := range arm {
+					val[p] = v>>uint(i)&1 == 1
+				}
+				if len(arm) == 3 && val[".doubleWrite"] && !val[".write"] {
+					continue // not reachable: see (3)
+				}
+				ev := c.evalCall(nil, corruptStep, []ai.Value{ptrTo(oam)}, nil, func(st *ai.State) {
+					for _, p := range arm {
+						st.SetCell(oam, p, ai.NewConstBool(val[p]))
+					}
+				})
+				var left []string
+				for _, p := range arm {
+					if b, isc := boolConst(c.cellBool(ev.Post, oam, p)); ev.Post != nil && (!isc || b) {
+						left = append(left, p)
+					}
+				}
+				r.Ob("O-consume", ev.Post != nil && len(left) == 0, fmt.Sprintf("corruption step from flags %v leaves every arming flag clear", val), firstPos(c, corruptStep), fmt.Sprintf("still set afterwards: %v", left))
+			}
+			// (3) the second-write flag is only ever set while the write flag is set
+			if len(arm) == 3 {
+				bad := map[string]string{}
+				nst := 0
+				c.evalAllEntries(ai.Hooks{
+					Store: func(st *ai.State, at ssa.Instruction, p *ai.Ptr, keys []ai.CellKey, v ai.Value, _ bool) {
+						for _, k := range keys {
+							if k.Obj == oam.ID && k.Path == ".doubleWrite" {
+								if b, isc := boolConst(asBool(v)); isc && !b {
+									continue
+								}
+								nst++
+								if w, isc := boolConst(c.cellBool(st, oam, ".write")); !isc || !w {
+									bad[fnName(outerFn(at.Parent()))] = c.pos(at)
+								}
+							}
+						}
+					},
+				}, func(*world.Entry, *ai.State) {})
+				for k, pos := range bad {
+					r.Ob("O-consume", false, k+" sets the second-write flag while the write flag may be clear", pos, "the corruption step returns early when neither read nor write is armed, so a lone second-write flag would stay pending")
+				}
+				r.Ob("O-consume", nst > 0, "stores setting the second-write flag examined", "", fmt.Sprintf("%d stores", nst))
+			}
+		}
 	}
 
 	// ---- O-writers
